@@ -9,7 +9,8 @@ PROPS_SRC = "RlibModel.Props.C12Src"     # second tie: `src_*` theorems about th
 PROFILES = ["release", "debug"]     # debug: debug assertions on, no optimisation - a reduced stream of the same families (harness_args)
 SHRINK_SEP = ";"
 RULE = ("a case is one history `N K ; op ; ...` over K live Bitset<N> registers; the const generic N is instantiated for 1, 2, 3, 10 and the "
-        "64-word boundary family 63, 64, 65, 128, 129 (the harness's compiled-in list IS the instantiation list). At the end of the history every "
+        "64-word boundary family 63, 64, 65, 128, 129 and the 256-word / 512-word boundary family 256, 257, 512, 513 (the harness's compiled-in list IS the "
+        "instantiation list). At the end of the history every "
         "register is observed through test on all 64N indices, count, iter_bits collected, Display, Debug, the iterator probes, and == / != on all "
         "register pairs; `obs r` makes the same observation of one register in the MIDDLE of the history (several bitsets alive, observed before "
         "and after they and their neighbours change). Iterator probes: a fresh BitsIter advanced by k = 0, 1, 2, l/2, l-1, l, l+1 calls of next "
@@ -26,7 +27,11 @@ RULE = ("a case is one history `N K ; op ; ...` over K live Bitset<N> registers;
         "single-bit set and boundary bit pairs (iterator); (F) random histories of all ops with positions biased to 0,63,64,65,64k-1,64k,64N-1; "
         "(G) a small out-of-domain stream (positions >= 64N, spec answer `any`); (H) live-object histories with mid-history observations; "
         "(I) the same families for N = 63, 64, 65, 128, 129 on sparse and a few dense sets with members around 4031/4032/4095/4096/4097/8191/8192 "
-        "(quick: full reduced stream for 65 and 129, lighter for 63, 64, 128). A second, reduced run uses the debug build profile. "
+        "(quick: full reduced stream for 65 and 129, lighter for 63, 64, 128); (J) N = 256, 257, 512, 513: rendering, iteration, count, probes, point operations, "
+        "& | ^ and &= |= ^= on pairs, == / != , from_u64, live objects and random histories on nine sparse sets (only word 0 non-empty, only the last bit, members on both "
+        "sides of bits 4096 / 8192 / 16384 / 32768, one bit per word in the first 256 words only / from word 256 on only, word 255 full, last word full, ...) and the full "
+        "set (count 16448 / 32832); the other dense sets, all pool pairs and all boundary positions in the thorough tier (quick: about 30 cases each for 257 and 513, "
+        "about 12 each for 256 and 512). A second, reduced run uses the debug build profile. "
         "non-trivial = distinct in-domain history with at least one state-changing op")
 ASSUMPTIONS = [
     "the Lean model of rlib_bitset is hand-written; it is tied to the code by running both on the same histories",
@@ -38,6 +43,9 @@ ASSUMPTIONS = [
     "showProbe in Model/Bitset.lean, executed on the model side on the list obtained by stepping the model's next and on the spec side on "
     "members.drop k; theorem iter_remaining proves the two lists equal); the same values are recomputed in the harness from a Vec<bool> "
     "mirror with plain loops (independent oracle, flag o=)",
+    "the driver executes runCaseFast / specRunCaseFast (Model/Bitset.lean: the words of a register, and of a loaded set, converted to an array once per "
+    "observation instead of list indexing per position); they are proved equal to runCase / specRunCase for every capacity, register count and history "
+    "(theorems fast_path_eq, observeRegFast_eq, history_observed_fast) - no csimp / implemented_by is involved",
     "the x= field (BitsIter::new on raw words, ToString, {:#?}, Debug inside Option, clone / clone_from / Default, same-object operators, "
     "equal-operand assigning operators, !!) is checked by an independent brute-force oracle inside the harness (Vec<bool> mirror, results read back "
     "through test on every index); the model prints the constant x=ok. `default d` and `clonefrom d s` are read by the driver as the model's new / clone",
@@ -51,9 +59,9 @@ MANIFEST = {
              "extensional equality on [0,64N), != its negation; Display/Debug are the 0/1 string of test; every history over named bitsets "
              "(mid-history observations included) refines the same history over sets; the invariant 'N words, each < 2^64' is preserved. "
              "The hand-written model is tied to rlib_bitset by a differential correspondence run on every check, for the capacities "
-             "N in {1,2,3,10,63,64,65,128,129} and every provided Iterator method of BitsIter on partially consumed iterators."),
+             "N in {1,2,3,10,63,64,65,128,129,256,257,512,513} and every provided Iterator method of BitsIter on partially consumed iterators."),
     "note": ("Trusted: Lean kernel, axioms propext/Classical.choice/Quot.sound, the hand-written model (checked against the code on the "
-             "generated histories for N in {1,2,3,10,63,64,65,128,129}, release and debug profile), count_ones/trailing_zeros intrinsics = their bit-recursive models, harness and "
+             "generated histories for N in {1,2,3,10,63,64,65,128,129,256,257,512,513}, release and debug profile), count_ones/trailing_zeros intrinsics = their bit-recursive models, harness and "
              "driver plumbing. usize overflow is excluded by the guard 64N+64 <= 2^64."),
     "technique": "Lean 4 proof of a hand-written model + differential correspondence check against the Rust crate",
     "design_ref": "DESIGN.md §6 C12",
